@@ -99,3 +99,37 @@ Print Assumptions C06_merge_mismatch_rejected.
 Print Assumptions C06_reachable_wf.
 Print Assumptions C06_redis_update_refines.
 Print Assumptions C06_redis_merge_refines.
+
+(* Redis: sketches with different register counts are rejected and the store is left as it was *)
+From GX.Proofs Require RedisExtras.
+Theorem C06_redis_merge_mismatch_rejected : forall s a b,
+  rh_m a <> rh_m b -> rhll_merge s a b = (Err E_MISMATCH, s).
+Proof. exact RedisExtras.rhll_merge_mismatch. Qed.
+Print Assumptions C06_redis_merge_mismatch_rejected.
+
+(* Redis, whole histories: the Redis-backed sketch keeps representing the in-memory sketch that
+   received the same updates, and so its stored register list depends only on the SET of elements
+   inserted -- duplicates and order do not matter (for every hash; the updates succeed whenever the
+   sketch has at least 128 registers, C05) *)
+From GX.Proofs Require HLLApi RedisHLLHistory.
+Theorem C06_redis_history_refines : forall hash xs s h mh mh',
+  hrefines s h mh -> HLLApi.upd_all (hic_of hash) mh xs = Ok mh' ->
+  exists s', RedisHLLHistory.rupd_all (hic_of hash) s h xs = (Ok tt, s') /\ hrefines s' h mh'.
+Proof.
+  intros hash xs s h mh mh' HR Hrun.
+  apply (RedisHLLHistory.rupd_all_refines (hic_of hash) xs s h mh mh' HR); [|exact Hrun].
+  intros p x. unfold hic_of. pose proof (index_le_65 p (hash x)). apply N.le_lt_trans with 65; [assumption|reflexivity].
+Qed.
+Print Assumptions C06_redis_history_refines.
+Theorem C06_redis_state_depends_on_set_only : forall hash s h mh xs ys m1 m2,
+  hrefines s h mh -> (forall x, In x xs <-> In x ys) ->
+  HLLApi.upd_all (hic_of hash) mh xs = Ok m1 -> HLLApi.upd_all (hic_of hash) mh ys = Ok m2 ->
+  exists s1 s2, RedisHLLHistory.rupd_all (hic_of hash) s h xs = (Ok tt, s1) /\
+                RedisHLLHistory.rupd_all (hic_of hash) s h ys = (Ok tt, s2) /\
+                r_list s1 (rh_key h) = r_list s2 (rh_key h).
+Proof.
+  intros hash s h mh xs ys m1 m2 HR Hset H1 H2.
+  apply (RedisHLLHistory.redis_state_depends_on_set_only (hic_of hash) s h mh xs ys m1 m2 HR); try assumption.
+  intros p x. unfold hic_of. pose proof (index_le_65 p (hash x)). apply N.le_lt_trans with 65; [assumption|reflexivity].
+Qed.
+Print Assumptions C06_redis_state_depends_on_set_only.
